@@ -197,6 +197,7 @@ func (g *Gen) genC10(n int) error {
 			s := g.fresh("s")
 			g.emit("build %s %s", s, b.Name)
 			g.newBuilt(s, b)
+			g.emit("q byteswritten %s", s)
 			segs = append(segs, s)
 		}
 		for _, s := range segs {
@@ -450,6 +451,7 @@ func (g *Gen) genC20(n int) error {
 	g.setMode()
 	cfg := g.defaultCfg()
 	cfg.minDocs = 2
+	cfg.syn = true
 	b := g.randBatch(g.fresh("b"), cfg)
 	g.emitBatch(b)
 	s := g.fresh("s")
@@ -457,10 +459,42 @@ func (g *Gen) genC20(n int) error {
 	g.newBuilt(s, b)
 	f := g.fresh("f")
 	g.emit("persist %s %s", s, f)
+	// a file without a single document or field is a segment like any other
+	be := &BatchSpec{Name: g.fresh("b")}
+	g.emitBatch(be)
+	se := g.fresh("s")
+	g.emit("build %s %s", se, be.Name)
+	g.newBuilt(se, be)
+	fe := g.fresh("f")
+	g.emit("persist %s %s", se, fe)
 	seqs := refSeqs(maxLen)
 	for si, seq := range seqs {
 		g.emit("note case %d", si)
 		o := g.fresh("o")
+		if si%5 == 4 {
+			// the same sequence on the empty file
+			g.emit("open %s %s", o, fe)
+			g.alias(o, se)
+			g.emit("ref refs %s", o)
+			g.emit("ref mapped %s", o)
+			for k, d := range seq {
+				if d == 1 {
+					g.emit("ref addref %s", o)
+				} else if (si+k)%2 == 0 {
+					g.emit("ref decref %s", o)
+				} else {
+					g.emit("ref close %s", o)
+				}
+				if k < len(seq)-1 {
+					g.emit("q count %s", o)
+					g.emit("ref refs %s", o)
+					g.emit("ref mapped %s", o)
+				}
+			}
+			g.emit("ref mapped %s", o)
+			g.st("seq.emptyfile")
+			continue
+		}
 		g.emit("open %s %s", o, f)
 		g.alias(o, s)
 		g.emit("ref refs %s", o)
@@ -473,6 +507,12 @@ func (g *Gen) genC20(n int) error {
 				g.emit("q dict %s %s aut=all lo=* hi=* probe=-", o, fn)
 				g.emit("q stored %s 0 stop=*", o)
 				g.emit("q docid %s 1", o)
+				for _, th := range sortedFieldNames(u.Thes) {
+					for _, t := range sortedKeys(u.Thes[th]) {
+						g.emit("q thes %s %s %s ex=nil", o, th, hx([]byte(t)))
+						break
+					}
+				}
 			}
 			if d == 1 {
 				g.emit("ref addref %s", o)
